@@ -180,6 +180,7 @@ PY_DECODERS = '''
 def udec(bs, pos=0):
     v = 0; i = 0
     while True:
+        if pos >= len(bs): return None, pos          # ran off the end: the bytes do not decode at all
         b = bs[pos]; pos += 1
         v |= (b & 0x7F) << (7 * i); i += 1
         if not (b & 0x80): break
@@ -187,6 +188,7 @@ def udec(bs, pos=0):
 def sdec(bs, pos=0):
     v = 0; i = 0
     while True:
+        if pos >= len(bs): return None, pos          # ran off the end: the bytes do not decode at all
         b = bs[pos]; pos += 1
         v |= (b & 0x7F) << (7 * i); i += 1
         if not (b & 0x80): break
